@@ -8,7 +8,7 @@ import coqlit as L
 ID = "C02"
 COQ_PROPERTY_FILE = "Properties/C02.v"
 COQ_DEPS = ["Common/ListX.v", "Common/ObsHash.v", "Generated/Tables.v", "Model/Registry.v", "Proofs/RegistryProofs.v",
-            "Proofs/RegistryMore.v"]
+            "Proofs/RegistryMore.v", "Proofs/RegistryProjection.v"]
 COQ_IMPORTS = "From Mesa Require Import Model.Registry."
 COQ_CASE_TYPE = "case"
 COQ_RUN = "run_case"
@@ -38,6 +38,12 @@ ASSUMPTIONS = [
     "every agent is strongly referenced by the harness for the whole history (weak-reference death is C04's subject)",
     "model objects hash by identity (the _ids table is keyed by the model object)",
 ]
+SOURCE_FUNCS = [("mesa/agent.py", "Agent.__init__"), ("mesa/agent.py", "Agent.remove"), ("mesa/agent.py", "Agent.create_agents"),
+                ("mesa/model.py", "Model.register_agent"), ("mesa/model.py", "Model.deregister_agent"),
+                ("mesa/model.py", "Model.remove_all_agents"), ("mesa/model.py", "Model.agents"), ("mesa/model.py", "Model.agent_types"),
+                ("mesa/model.py", "Model.agents_by_type"), ("mesa/agent.py", "AgentSet.do"), ("mesa/agent.py", "AgentSet.shuffle_do"),
+                ("mesa/agent.py", "AgentSet.map"), ("mesa/agent.py", "AgentSet.add"), ("mesa/agent.py", "AgentSet.remove"),
+                ("mesa/agent.py", "AgentSet.discard"), ("mesa/agent.py", "AgentSet._update")]
 NCLS = 5
 E_KEY = 1
 
@@ -181,11 +187,23 @@ def _gen_op(rng, sim):
     return ["new_model"]
 
 
-def _gen_history(rng, nops):
+def _gen_setapi(rng, sim):
+    m = rng.randrange(sim.n)
+    if rng.random() < 0.6 and sim.born:
+        live = sim.live[m]
+        k = rng.choice(live) if live and rng.random() < 0.8 else rng.randrange(len(sim.born))
+        return ["set_discard", m, k, rng.random() < 0.5]
+    return ["set_select", m, rng.choice(["even_keys", "val_ge_3", "first2", "all"])]
+
+
+def _gen_history(rng, nops, setapi=False):
     n = rng.choice([1, 2, 2, 3])
     sim = _Sim(n)
     ops = []
     for _ in range(nops):
+        if setapi and sim.born and rng.random() < 0.15:
+            ops.append(_gen_setapi(rng, sim))
+            continue
         if sim.n >= 4:
             op = _gen_op(rng, sim)
             while op[0] == "new_model":
@@ -205,7 +223,8 @@ def gen_cases(rng, tier):
     cases = []
     for i in range(n):
         nops = rng.randint(4, 16) if i % 3 else rng.randint(16, 40)
-        cases.append(_gen_history(rng, nops))
+        # every seventh history also mutates model.agents through the AgentSet API (not a registry operation)
+        cases.append(_gen_history(rng, nops, setapi=(i % 7 == 6)))
     return cases
 
 
@@ -292,6 +311,7 @@ class _Driver:
         self.s_removed = []     # key -> bool
         self.s_count = [0] * case["nmodels"]   # agents ever created per model
         self.s_reordered = [False] * case["nmodels"]
+        self.s_hidden = set()   # live agents taken out of model.agents through the AgentSet API
         self.failures = []
         self.opi = 0
         self.script = {}
@@ -374,6 +394,7 @@ class _Driver:
         a = self.born[k]
         was = self.s_removed[k]
         self.s_removed[k] = True
+        self.s_hidden.discard(k)
         try:
             a.remove()
         except Exception as e:  # noqa: BLE001
@@ -389,6 +410,7 @@ class _Driver:
         for k in range(len(self.born)):
             if self.s_model[k] == m:
                 self.s_removed[k] = True
+                self.s_hidden.discard(k)
         self.models[m].remove_all_agents()
         self.check("remove_all_agents")
         return True
@@ -421,13 +443,16 @@ class _Driver:
     def check(self, site):
         for m, model in enumerate(self.models):
             live = self.live(m)
+            # agents discarded from model.agents through the AgentSet API are - by what the code does - live and
+            # registered but no longer in that view; the statement's exactness clause is about registry operations
+            vis = [k for k in live if k not in self.s_hidden]
             ids = [self.kof(a) for a in model.agents]
-            if sorted(ids) != live or len(model.agents) != len(live):
+            if sorted(ids) != vis or len(model.agents) != len(vis):
                 self.fail("C02/Model.agents/not-exact",
-                          f"after {site}: model {m}.agents holds agents {ids} (len {len(model.agents)}), the agents created for it and not removed are {live}")
-            elif not self.s_reordered[m] and ids != live:
+                          f"after {site}: model {m}.agents holds agents {ids} (len {len(model.agents)}), the agents created for it and not removed are {vis}")
+            elif not self.s_reordered[m] and ids != vis:
                 self.fail("C02/Model.agents/order",
-                          f"after {site}: model {m}.agents iterates {ids}, creation order is {live} and nothing reordered it")
+                          f"after {site}: model {m}.agents iterates {ids}, creation order is {vis} and nothing reordered it")
             bt = model.agents_by_type
             for cls, aset in bt.items():
                 got = [self.kof(a) for a in aset]
@@ -452,7 +477,7 @@ class _Driver:
                 a = self.born[k]
                 if self.s_model[k] == m:
                     isin = a in model.agents
-                    if isin != (not self.s_removed[k]):
+                    if isin != (not self.s_removed[k] and k not in self.s_hidden):
                         self.fail("C02/Model.agents/membership",
                                   f"after {site}: `agent #{k} in model {m}.agents` is {isin}, removed={self.s_removed[k]}")
                     cls = type(a)
@@ -509,6 +534,8 @@ class _Driver:
             return set()
         if k in ("remove", "deregister"):
             return {self.s_model[op[1]]} if 0 <= op[1] < len(self.born) else set()
+        if k in ("set_discard", "set_select"):
+            return {op[1]}
         if k == "activate":
             t = {op[1]}
             for e in op[5]:
@@ -542,13 +569,15 @@ class _Driver:
                 return [-2], op
             a = self.born[k]
             was_live = not self.s_removed[k]
+            hidden = k in self.s_hidden   # then the third statement of deregister_agent raises after the first two ran
+            self.s_hidden.discard(k)
             before = self.view()
             try:
                 a.model.deregister_agent(a)
             except KeyError:
-                if was_live:
+                if was_live and not hidden:
                     self.fail("C02/Model.deregister_agent/raised-for-live-agent", f"deregister_agent of live agent #{k} raised KeyError")
-                if self.view() != before:
+                if self.view() != before and not hidden:
                     for key in ("C02/Model.deregister_agent/state-changed-on-KeyError", "C18/Model.deregister_agent/state-changed"):
                         self.fail(key, f"deregister_agent of the already removed agent #{k} raised KeyError but changed the registry")
                 self.s_removed[k] = True
@@ -585,6 +614,50 @@ class _Driver:
             self.check("in-place reorder")
             order = [self.kof(a) for a in aset]
             return [0], op + [order]
+        if kind == "set_discard":
+            _, m, k, strict = op
+            if not 0 <= m < len(self.models):
+                return [-2], op
+            model = self.models[m]
+            if not 0 <= k < len(self.born):
+                return ([-1, E_KEY] if strict else [0]), op
+            a = self.born[k]
+            present = a in model.agents
+            if present and self.s_model[k] == m and not self.s_removed[k]:
+                self.s_hidden.add(k)
+            try:
+                if strict:
+                    model.agents.remove(a)
+                else:
+                    model.agents.discard(a)
+            except KeyError:
+                self.check("AgentSet.remove")
+                return [-1, E_KEY], op
+            self.check("AgentSet.discard")
+            return [0], op
+        if kind == "set_select":
+            _, m, how = op
+            if not 0 <= m < len(self.models):
+                return [-2], op
+            model = self.models[m]
+            if how == "even_keys":
+                kw = {"filter_func": lambda a: self.kof(a) % 2 == 0}
+            elif how == "val_ge_3":
+                kw = {"filter_func": lambda a: _enc_val(getattr(a, "val", 0)) >= [0, 3]}
+            elif how == "first2":
+                kw = {"at_most": 2}
+            else:
+                kw = {}
+            before = [self.kof(a) for a in model.agents]
+            r = model.agents.select(inplace=True, **kw)
+            after = [self.kof(a) for a in model.agents]
+            if r is not model.agents:
+                self.fail("C02/AgentSet/inplace-returned-other-object", "select(inplace=True) did not return the set itself")
+            for k in before:
+                if k not in after and 0 <= k < len(self.born) and not self.s_removed[k]:
+                    self.s_hidden.add(k)
+            self.check("AgentSet.select(inplace=True)")
+            return [0], op + [after]
         if kind == "activate":
             _, m, c, akind, mform, script = op
             if not 0 <= m < len(self.models):
@@ -689,6 +762,11 @@ def _op(op):
     if k == "reorder_type":
         order = op[4] if len(op) > 4 else []
         return f"ReorderType {L.z(op[1])} {L.z(op[2])} {L.zlist(order)}"
+    if k == "set_discard":
+        return f"SetDiscard {L.z(op[1])} {L.z(op[2])} {L.b(op[3])}"
+    if k == "set_select":
+        keep = op[3] if len(op) > 3 else []
+        return f"SetSelect {L.z(op[1])} {L.zlist(keep)}"
     if k == "activate":
         _, m, c, akind, _mform, script = op[:6]
         called = op[6] if len(op) > 6 else []
@@ -712,6 +790,10 @@ def op_kinds(case):
         elif op[0] == "activate":
             out.append(f"activate/{op[3]}/{op[4]}")
             out += [f"callback/{e[1][0]}" for e in op[5]]
+        elif op[0] == "set_select":
+            out.append(f"set_select/{op[2]}")
+        elif op[0] == "set_discard":
+            out.append("set_discard/" + ("remove" if op[3] else "discard"))
         elif op[0] in ("reorder_all", "reorder_type"):
             out.append(f"{op[0]}/{op[-1] if isinstance(op[-1], str) else op[2 if op[0] == 'reorder_all' else 3]}")
         else:
